@@ -271,3 +271,22 @@ def O3(inp, n):
     cl['observer_leave_removes_only_its_entries'] = e2 is None and set(q2.next) == keys0 and set(q2.match) == keys0 and r2 not in o.readonlyNodes and not o.isNodeConnected(r2)
     cl['voter_set_untouched'] = set(x.id for x in o.otherNodes) == set(x.id for x in p.others)
     return Res(cl, nontrivial=any(p.conn[x.id] for x in p.observers), obs=lambda: dict(conn=p.conn, sent=[(nd.id, len(m.get('entries', []))) for nd, m in tr.sent], exc=show(exc)))
+
+
+@obligation('F2', props=('C20', 'C14'), quick=[dict(N=3, n=2)], thorough=[dict(N=N, n=2) for N in (2, 3, 5)], stubs=_STUBS,
+            bounds='N<=5, any role, any tables; a transport connect or disconnect notification for any voter')
+def F2(inp, N, n):
+    """connection notifications are not replies: a connect / disconnect notification changes nothing but the connected set -
+    in particular not the leader's record of when it last heard from that voter, nor matchIndex / nextIndex, role or term."""
+    o, tr, now = _mk(inp, N)
+    p = so.sym_state(inp, o, now, n, term_hi=T_HI)
+    node = p.others[inp.choice('node', len(p.others))]
+    up = inp.flag('connect')
+    _, exc = guard(getattr(o, P + ('onNodeConnected' if up else 'onNodeDisconnected')), node)
+    q = so.post_state(o)
+    cl = _common(p, q, exc)
+    cl['tables_untouched'] = And([Eq(q.resp[k], p.resp[k]) for k in p.resp] + [Eq(q.match[k], p.match[k]) for k in p.match] + [Eq(q.next[k], p.next[k]) for k in p.next] +
+                                 [sorted(q.resp) == sorted(p.resp), sorted(q.match) == sorted(p.match)])
+    cl['role_term_log_untouched'] = And(q.role == p.role, Eq(q.term, p.term), Eq(q.commit, p.commit), so.logs_equal(p.log, q.log) if len(p.log) == len(q.log) else False)
+    cl['connected_set_updated'] = o.isNodeConnected(node) == up and len(tr.sent) == 0
+    return Res(cl, nontrivial=p.role == L, obs=lambda: dict(role=p.role, node=node.id, up=up, exc=show(exc)))
